@@ -125,6 +125,21 @@ pub fn store_scenario(idx: usize, rng: &mut Rng, o: &StoreOpts, family: &str) ->
         let k = 1 + rng.below(3);
         w.commit(wr, rng, &o.prof, k, None, None);
     }
+    // every third scenario: a long prelude (the change graph caches a clock at every 16th change) by two actors,
+    // then the writer switches to a fresh actor that sorts first and whose first transaction commits nothing
+    if idx % 3 == 2 {
+        for k in 0..(18 + rng.below(8)) {
+            if k % 4 == 3 {
+                w.merge(hr, wr);
+                w.commit(hr, rng, &o.prof, 1, None, None);
+                w.merge(wr, hr);
+            } else {
+                w.commit(wr, rng, &o.prof, 1, None, None);
+            }
+        }
+        w.set_actor(wr, 0);
+        w.rollback_tx(wr, rng, &o.prof, 1, "tx", None);
+    }
     let deflate = rng.chance(1, 2);
     let mut pieces: Vec<Vec<u8>> = vec![];
     let mut cursor: Vec<ChangeHash>;
